@@ -10,6 +10,7 @@ import TracklibVerif.Drv.Util
   late     `_` or `num@x,y;x,y|…`: `addFeature(track, num)` calls made after construction
   queries  separated by `|`, fields by `;`:
      info | grid | getcell;x;y | inter;8 scalars | cross;ax;ay;bx;by (fractional cell indices)
+     gcross;x1;y1;x2;y2 (ground coordinates: __cellsCrossSegment(__getCell(a), __getCell(b)) or `none`)
      cell;i;j | pt;x;y | seg;x1;y1;x2;y2 | trk;x1;y1;x2;y2;…
      ncell;i;j;u | npt;x;y;u | nseg;x1;y1;x2;y2;u | ntrk;u;x1;y1;… | units;d
      nd;x;y;d   (neighborhood(coord, unit=groundDistanceToUnits(d)) → `u=<result>`)
@@ -88,6 +89,10 @@ def query (num? : String → Option α) (shw : α → String) (fl : α → Int) 
       | "getcell", [x, y] => pure (showOpt (fun (c : α × α) => s!"{shw c.1},{shw c.2}") (getCell ix (x, y)))
       | "inter", [a, b, c, d, e, f, g, h] => pure (showBool (isSegmentIntersects ⟨a, b, c, d⟩ ⟨e, f, g, h⟩))
       | "cross", [ax, ay, bx, b_y] => pure (showCells (cellsCross fl (ax, ay) (bx, b_y)))
+      | "gcross", [x1, y1, x2, y2] =>
+        match getCell ix (x1, y1), getCell ix (x2, y2) with
+        | some p1, some p2 => pure (showCells (cellsCross fl p1 p2))
+        | _, _ => pure "none"
       | "pt", [x, y] => pure (showRes showNats (requestPoint fl ix (x, y)))
       | "seg", [x1, y1, x2, y2] => pure (showRes showNats (requestSeg fl ix (x1, y1) (x2, y2)))
       | "trk", _ => do
